@@ -73,6 +73,8 @@ structure TS where
   lastW : List WOp := []
   lastWF : List WOp := []
   faultMode : Bool := false
+  faultArmed : Bool := false
+  nFailedOpens : Nat := 0
   looseMode : Bool := false                   -- background work overlaps later calls: structural correspondence suspended
   lastOver : List Bytes := []
   nWerr : Nat := 0
@@ -188,7 +190,7 @@ def handleEdit (t : TS) (spec : String) (rc : String) : TS :=
           else
             let unflushed := (t.st.imm.getD []) ++ t.st.mem
             let recovered := metas.flatMap (·.run)
-            let t := if sameEntries t.cmp unflushed recovered then t
+            let t := if sameEntries t.cmp unflushed recovered || t.faultMode then t   -- under injected faults the structural state is not tracked; reads and the recovered dump judge
                      else t.problem "VIOLATION[recover]" s!"recovery tables hold [{showRunBrief recovered}] but the unflushed writes were [{showRunBrief unflushed}]"
             let t := { t with st := { t.st with mem := [], imm := none, snaps := [] }, nRecover := t.nRecover + 1 }
             let sorted := metas.mergeSort (fun a b => decide (a.num ≤ b.num))
@@ -456,6 +458,8 @@ def handleLine (t : TS) (line : String) : TS :=
   | ["open", rc, c] =>
     if rc != "0" then
       (if t.expectFail then { t with expectFail := false, inFailedOpen := true, nLifecycle := t.nLifecycle + 1 }
+       else if t.faultMode && t.faultArmed then { t with isOpen := false, nFailedOpens := t.nFailedOpens + 1 }   -- an open may fail while I/O errors are being injected
+       else if t.faultMode then t.problem "VIOLATION[faultreopen]" s!"after the injected I/O error was gone the database could not be opened: rc={rc}"
        else t.problem "MISMATCH[other]" s!"open failed rc={rc}")
     else
       let t := if t.expectFail then t.problem "VIOLATION[lifecycle]" "an open that must be refused (wrong comparator) succeeded" else t
@@ -540,7 +544,21 @@ def handleLine (t : TS) (line : String) : TS :=
     | some os => { t with lastWF := os }
     | none => t.problem "MISMATCH[other]" "unparsable failed write"
   | ["operr", op, rc] => if t.faultMode then t else t.problem "MISMATCH[other]" s!"{op} failed rc={rc}"
-  | "fault-armed" :: _ => t
+  | ["recovered", lastSeq, entries] =>
+    -- fault-injection runs: everything a reopen recovered.  A write that returned an error may or may not have reached
+    -- the log; if any of it is back, the batch counts as written from now on (and it has to be back as a whole)
+    match parseEntries entries with
+    | some run =>
+      let back := t.batches.filter (fun b => b.failed && b.entries.any (fun e => run.contains e) && !b.entries.all (fun e => t.history.contains e))
+      let torn := back.filter (fun b => !b.entries.all (fun e => run.contains e || (run.any fun r => r.ukey == e.ukey && r.seq > e.seq)))
+      let t := if torn.isEmpty then t
+               else t.problem "VIOLATION[batchatomic]" s!"a batch whose write returned an error was recovered in part after a reopen (first sequence number {(torn.map (·.seq0)).headD 0})"
+      -- sequence numbers consumed by writes that failed without reaching the log are handed out again after a reopen
+      let ls := (lastSeq.toNat?).getD t.st.lastSeq
+      { t with history := t.history ++ (back.flatMap (·.entries)).filter (fun e => !t.history.contains e), st := { t.st with lastSeq := ls } }
+    | none => t.problem "MISMATCH[other]" "unparsable recovered dump"
+  | ["fault-armed", k] => { t with faultArmed := k != "-1" }
+  | ["ensureopen", "noop"] => t
   | "faultstat" :: _ => t
   | ["file", num, size, entries] =>
     match num.toNat?, size.toNat?, parseEntries entries with
@@ -555,6 +573,7 @@ def handleLine (t : TS) (line : String) : TS :=
       let jo := t.justOpened
       let t := { t with justOpened := false }
       if run == t.st.mem then t
+      else if jo && t.faultMode then t
       else if jo then t.problem "VIOLATION[recover]" s!"after reopening, the memtable holds [{showRunBrief run}] but the writes not yet in tables were [{showRunBrief t.st.mem}]"
       else t.problem "MISMATCH[mem]" s!"memtable contents differ: implementation [{showRunBrief run}] model [{showRunBrief t.st.mem}]"
     | none => t.problem "MISMATCH[other]" "unparsable mem dump"
@@ -690,4 +709,4 @@ def main : IO Unit := do
     IO.println p
   for k in t.known do
     IO.println s!"KNOWN {k}"
-  IO.println s!"done lines={t.lineNo} writes={t.nWrites} gets={t.nGets} iterops={t.nIter} flushes={t.nFlush} compactions={t.nCompact} trivialmoves={t.nTrivial} recoveries={t.nRecover} invchecks={t.nInv} vers={t.nVer} ls={t.nLs} lifecycle={t.nLifecycle} corruptions={t.nCorrupt} corruptreads={t.nCorruptReads} corrupterrors={t.nCorruptErrors} repairs={t.nRepairs} liveiterops={t.nLongIterOps} crashes={t.nCrash} crashes2={t.nCrash2} crashesnested={t.nCrashN} crashnonempty={t.nCrashNontrivial} jevents={t.nJ} ioevents={t.io.nEvents} edits={t.io.nEdits} conforms={if t.io.mon.ok then 1 else 0} conformsstrict={if t.io.mon.ok && t.io.mon.okDel then 1 else 0} werr={t.nWerr} failedbatches={t.nFailedBatches} maxfiles={t.maxFiles} levelsused={t.levelsUsed} problems={t.problems.length + t.io.problems.length}"
+  IO.println s!"done lines={t.lineNo} writes={t.nWrites} gets={t.nGets} iterops={t.nIter} flushes={t.nFlush} compactions={t.nCompact} trivialmoves={t.nTrivial} recoveries={t.nRecover} invchecks={t.nInv} vers={t.nVer} ls={t.nLs} lifecycle={t.nLifecycle} corruptions={t.nCorrupt} corruptreads={t.nCorruptReads} corrupterrors={t.nCorruptErrors} repairs={t.nRepairs} liveiterops={t.nLongIterOps} crashes={t.nCrash} crashes2={t.nCrash2} crashesnested={t.nCrashN} crashnonempty={t.nCrashNontrivial} jevents={t.nJ} ioevents={t.io.nEvents} edits={t.io.nEdits} conforms={if t.io.mon.ok then 1 else 0} conformsstrict={if t.io.mon.ok && t.io.mon.okDel then 1 else 0} werr={t.nWerr} failedopens={t.nFailedOpens} failedbatches={t.nFailedBatches} maxfiles={t.maxFiles} levelsused={t.levelsUsed} problems={t.problems.length + t.io.problems.length}"
